@@ -10,6 +10,8 @@ package main
 // own parser of the wire notation), and prints
 //   CASE <size colour accept instant gamestr> ; <ops> ; <event> ; <event> ... | <observation per event> ; ... ; <final record>
 // events:  L <hex of the server line> | Z (connection closed) | A <move> <start ply> <ctx cancelled> | G
+//          LA <hex> <move> <start ply> <ctx cancelled>   the thinker's answer landed in its channel WHILE the loop was
+//                                                        handling that line (before the branch's moveCancel())
 // observation per event:  <sends, blanks as _, comma separated>^<0|1|P|S>^<#positions>^<moves>^<top position>
 //
 // Because the 500 ms grace timer is real, a schedule whose trace fails the oracle or disagrees with
@@ -41,6 +43,12 @@ type c07Event struct {
 	TPS    string   `json:"tps"`
 	Cancel bool     `json:"cancel"`
 	Forced bool     `json:"forced"`
+	During *struct {
+		Move   string `json:"move"`
+		Ply    int    `json:"ply"`
+		TPS    string `json:"tps"`
+		Cancel bool   `json:"cancel"`
+	} `json:"during"`
 	Sends  []string `json:"sends"`
 	Ret    string   `json:"ret"`
 	Moves  *string  `json:"moves"`
@@ -242,9 +250,15 @@ func c07Board(tps string) *aboard {
 }
 
 // c07Oracle evaluates the three clauses of the property on a trace.  "" = held.
+// The server: it appends the move of every P/M line it sends; it performs an undo AT ONCE when the bot accepts one
+// (the Undo line that tells the bot follows); it appends a move received from the bot iff that move is legal in its
+// current position and it is the bot's turn there.  The bot's record is compared with the history as communicated
+// (until the Undo line is delivered that is the history before the undo).
 func c07Oracle(t *c07Trace) (class, did, want string) {
 	srv := []*aboard{c07Start(t.Size)}
 	var srvMoves []tak.Move
+	var heldPos *aboard // the position / move taken back by an undo whose Undo line is still outstanding
+	var heldMove tak.Move
 	serverEnded := false
 	var recMoves string
 	var recPos []string
@@ -259,21 +273,25 @@ func c07Oracle(t *c07Trace) (class, did, want string) {
 			if ok {
 				nxt = cur.rulesMove(m)
 			}
-			if nxt == nil {
-				return "", "", "" // the harness's server sent an illegal line: outside the property
+			if nxt == nil || heldPos != nil {
+				return "", "", "" // the harness's server sent an inconsistent line: outside the property
 			}
 			srv = append(srv, nxt)
 			srvMoves = append(srvMoves, m)
 		case "X":
-			if len(srv) < 2 {
+			if heldPos == nil {
 				return "", "", ""
 			}
-			srv = srv[:len(srv)-1]
-			srvMoves = srvMoves[:len(srvMoves)-1]
+			heldPos = nil
 		case "LI", "XX", "H":
 			return "", "", "" // hostile line: the property assumes a server consistent with its history
 		case "O", "Q", "Z":
 			serverEnded = true
+		}
+		// the answer that became available to the loop during this event
+		ansMove, ansPly, ansTPS, haveAns := e.Move, e.Ply, e.TPS, e.Ev == "A"
+		if e.During != nil {
+			ansMove, ansPly, ansTPS, haveAns = e.During.Move, e.During.Ply, e.During.TPS, true
 		}
 		// --- what the bot transmitted during the event
 		for _, s := range e.Sends {
@@ -285,6 +303,10 @@ func c07Oracle(t *c07Trace) (class, did, want string) {
 				if e.Ev != "U" || !t.Accept {
 					return "sent-not-ai-answer", at + " sent " + s, "an undo is accepted only when requested and AcceptUndo() holds"
 				}
+				if heldPos == nil && len(srv) >= 2 { // the server takes the last move back now
+					heldPos, heldMove = srv[len(srv)-1], srvMoves[len(srvMoves)-1]
+					srv, srvMoves = srv[:len(srv)-1], srvMoves[:len(srvMoves)-1]
+				}
 				continue
 			}
 			m, ok := c07ParseWire(body)
@@ -292,13 +314,13 @@ func c07Oracle(t *c07Trace) (class, did, want string) {
 				return "sent-not-ai-answer", at + " sent " + s, "a well-formed move"
 			}
 			cur = srv[len(srv)-1]
-			if e.Ev != "A" || encMove(c07ParseMove(e.Move)) != encMove(m) {
-				return "sent-not-ai-answer", at + " sent " + s, "the move its AI returned in this event (" + e.Move + ")"
+			if !haveAns || encMove(c07ParseMove(ansMove)) != encMove(m) {
+				return "sent-not-ai-answer", at + " sent " + s, "a move its AI returned in this event"
 			}
-			start := c07Board(e.TPS)
-			if e.Ply != cur.ply || start == nil || !start.equalBoard(cur) {
-				return "stale-answer-sent", fmt.Sprintf("%s sent %s, computed for ply %d (%s)", at, s, e.Ply, e.TPS),
-					fmt.Sprintf("an answer computed for the current position, ply %d (%s)", cur.ply, c07EncBoard(cur))
+			start := c07Board(ansTPS)
+			if ansPly != cur.ply || start == nil || !start.equalBoard(cur) {
+				return "stale-answer-sent", fmt.Sprintf("%s sent %s, computed for ply %d (%s)", at, s, ansPly, ansTPS),
+					fmt.Sprintf("an answer computed for the server's current position, ply %d (%s)", cur.ply, c07EncBoard(cur))
 			}
 			botCol := tak.White
 			if t.Color == "B" {
@@ -319,19 +341,24 @@ func c07Oracle(t *c07Trace) (class, did, want string) {
 			recMoves, recPos = *e.Moves, e.Pos
 		}
 		if e.Ret != "P" {
-			want := strings.TrimSuffix(encMoves(srvMoves), "-")
-			ok := recMoves == want && len(recPos) == len(srv)
+			comm, commMoves := srv, srvMoves
+			if heldPos != nil {
+				comm = append(append([]*aboard{}, srv...), heldPos)
+				commMoves = append(append([]tak.Move{}, srvMoves...), heldMove)
+			}
+			want := strings.TrimSuffix(encMoves(commMoves), "-")
+			ok := recMoves == want && len(recPos) == len(comm)
 			if ok {
-				for k := range srv {
+				for k := range comm {
 					b := c07Board(recPos[k])
-					if b == nil || !b.equalBoard(srv[k]) {
+					if b == nil || !b.equalBoard(comm[k]) {
 						ok = false
 					}
 				}
 			}
 			if !ok {
 				return "record-diverges", fmt.Sprintf("%s record moves=[%s] positions=%v", at, recMoves, recPos),
-					fmt.Sprintf("server history moves=[%s] top=%s (%d positions)", want, c07EncBoard(srv[len(srv)-1]), len(srv))
+					fmt.Sprintf("server history as communicated moves=[%s] top=%s (%d positions)", want, c07EncBoard(comm[len(comm)-1]), len(comm))
 			}
 		}
 		// --- the loop
@@ -383,7 +410,11 @@ func c07Case(s *c07Sched, t *c07Trace) (input, l1 string) {
 		case "Z":
 			in = append(in, "Z")
 		default:
-			in = append(in, "L "+hex.EncodeToString([]byte(e.Line))+"-")
+			if e.During != nil {
+				in = append(in, fmt.Sprintf("LA %s- %s %d %d", hex.EncodeToString([]byte(e.Line)), e.During.Move, e.During.Ply, b2i(e.During.Cancel)))
+			} else {
+				in = append(in, "L "+hex.EncodeToString([]byte(e.Line))+"-")
+			}
 		}
 		if e.Moves != nil {
 			moves, pos = *e.Moves, e.Pos
@@ -501,6 +532,51 @@ func c07Directed() []*c07Sched {
 			}
 		}
 	}
+	// the thinker's answer lands in its channel WHILE the loop is handling a line (after the line was taken, before the
+	// branch's moveCancel()): the repaired loop must ignore it.  A "clean round" leaves exactly one live thinker blocked.
+	round := func(k int) string { return "A:" + mv[k] + " L:" + mv[k] + " T AC:0" }
+	for _, size := range []int{3, 4} {
+		for _, col := range []string{"W", "B"} {
+			for r := 0; r <= 3; r++ {
+				var ops []string
+				if col == "B" {
+					ops = append(ops, "L:1 T AC:0")
+				}
+				for k := 0; k < r; k++ {
+					ops = append(ops, round(k))
+				}
+				// now it is the bot's turn and its live thinker is blocked
+				if !(col == "W" && r == 0) { // (no move to take back yet)
+					add("during-undo", size, col, true, false, append(append([]string{}, ops...), "UA:1 A:0 G A:1 L:1 T AC:0 A:0 L:0 G A:0")...)
+					add("during-undo", size, col, true, false, append(append([]string{}, ops...), "UA:0 C:0 T G A:0 L:2 G A:0 U A:0")...)
+				}
+				if size == 3 && r >= 1 && r <= 2 {
+					// between the bot's acceptance and the Undo line: a Time line (no grace timer pending) and thinker returns
+					add("undo-window", size, col, true, false, append(append([]string{}, ops...), "G U T AC:0 A:0 C:0 A:1 L:0 G A:0")...)
+					add("undo-window", size, col, true, false, append(append([]string{}, ops...), "G UA:0 T T A:0 G A:1 L:1 G A:0")...)
+				}
+				add("during-move", size, col, true, false, append(append([]string{}, ops...), "RA:2:0 G A:0 L:1 T AC:0 A:0 L:0")...)
+				add("during-move", size, col, true, false, append(append([]string{}, ops...), "RA:1:1 RA:0:0 T A:0 A:1 L:1 G A:0")...)
+				// and on the opponent's turn (the channel is not listened to anyway)
+				add("during-move", size, col, true, false, append(append([]string{}, ops...), "A:0 LA:1:0 UA:0 G A:0 L:0 T AC:0 UA:0 A:0")...)
+			}
+			// resume: the ply-0 thinker's answer lands during the j-th replayed line
+			for r := 1; r <= 4; r++ {
+				for j := 0; j < r; j++ {
+					var ops []string
+					for k := 0; k < r; k++ {
+						if k == j {
+							ops = append(ops, "RA:"+mv[k]+":0")
+						} else {
+							ops = append(ops, "R:"+mv[k])
+						}
+					}
+					ops = append(ops, "G A:1 A:0 L:2 T AC:0 A:0 UA:0 A:0")
+					add("during-resume", size, col, true, false, ops...)
+				}
+			}
+		}
+	}
 	for _, col := range []string{"W", "B"} {
 		// AIs that answer instantly
 		add("instant", 3, col, true, true, "L:0 G L:1 G L:2 G L:0 U X G L:1 G")
@@ -556,8 +632,14 @@ func c07Random(c *ctx, n int) []*c07Sched {
 			x := c.r.Intn(100)
 			a := strconv.Itoa(c.r.Intn(12))
 			switch {
-			case k < resume && x < 70:
+			case k < resume && x < 50:
 				s.ops = append(s.ops, "R:"+a)
+			case k < resume && x < 70:
+				s.ops = append(s.ops, "RA:"+a+":"+strconv.Itoa(c.r.Intn(12)))
+			case x < 5:
+				s.ops = append(s.ops, "LA:"+a+":"+strconv.Itoa(c.r.Intn(12)))
+			case x < 10:
+				s.ops = append(s.ops, "UA:"+a)
 			case x < 28:
 				s.ops = append(s.ops, "L:"+a)
 			case x < 50:
@@ -650,20 +732,20 @@ func runC07(c *ctx) {
 	} else {
 		par = 192
 		scheds = append(scheds, c07Random(c, 1500)...)
-		al := []string{"L:0", "A:0", "G", "T", "U", "X"}
-		ar := []string{"R:0", "A:0", "G", "T", "U", "X"}
+		al := []string{"L:0", "LA:0:0", "A:0", "G", "T", "U", "UA:0"}
+		ar := []string{"R:0", "RA:0:0", "A:0", "G", "T", "UA:0"}
 		for _, col := range []string{"W", "B"} {
 			scheds = append(scheds, c07Exhaustive(3, col, al, 6)...)
 			scheds = append(scheds, c07Exhaustive(3, col, ar, 5)...)
 		}
-		scheds = append(scheds, c07Exhaustive(3, "O", al, 5)...)
+		scheds = append(scheds, c07Exhaustive(3, "O", []string{"L:0", "LA:0:0", "A:0", "G", "T", "U"}, 5)...)
 		// the same orderings after two plies have been played (undo and late answers deeper in the game)
 		for _, x := range c07Exhaustive(3, "W", al, 5) {
-			x.ops = append([]string{"A:0", "L:0", "G"}, x.ops...)
+			x.ops = append([]string{"A:0", "L:0", "T", "AC:0"}, x.ops...)
 			scheds = append(scheds, x)
 		}
 		for _, x := range c07Exhaustive(3, "B", al, 5) {
-			x.ops = append([]string{"L:0", "G", "A:0"}, x.ops...)
+			x.ops = append([]string{"L:0", "T", "AC:0"}, x.ops...)
 			scheds = append(scheds, x)
 		}
 	}
@@ -762,6 +844,17 @@ func runC07(c *ctx) {
 					c.stat("answers_cancelled_ctx", 1)
 				} else {
 					c.stat("answers_live_ctx", 1)
+				}
+			}
+			if e.During != nil {
+				k := "line"
+				if e.Ev == "U" {
+					k = "undo_request"
+				}
+				if e.During.Cancel {
+					c.stat("answer_during_"+k+"_cancelled_ctx", 1)
+				} else {
+					c.stat("answer_during_"+k+"_live_ctx", 1)
 				}
 			}
 			if e.Ev == "G" && e.Forced {
